@@ -280,7 +280,7 @@ func c07One(o *E2Out, dir string, in c07Input, full bool) {
 				}
 			}
 		}
-		if m.Kind != "default" || in.Replicas > 1 {
+		if m.Kind != "default" {
 			return
 		}
 		// selection: every subset of requested names x no-deps (fresh load each time)
@@ -315,10 +315,11 @@ func c07One(o *E2Out, dir string, in c07Input, full bool) {
 				}
 				var extra, missing []string
 				for name, pc := range p2.Processes {
-					if !pc.Disabled && !want[name] {
+					// requests and dependencies name configured processes: every replica follows its process
+					if !pc.Disabled && !want[pc.Name] {
 						extra = append(extra, name)
 					}
-					if pc.Disabled && want[name] {
+					if pc.Disabled && want[pc.Name] {
 						missing = append(missing, name)
 					}
 				}
